@@ -126,7 +126,7 @@ func genC10(r *rng, tier string, clients int) *Case {
 	}
 	nfn := nProg + 2
 	if clients == 0 {
-		clients = pick(r, 2, 2, 3, 4, 8)
+		clients = pick(r, 2, 2, 3, 4, 8, 16)
 	}
 	total := r.rangeInt(4, 24)
 	if tier == "thorough" {
